@@ -78,3 +78,69 @@ Theorem C13_checker_overlap_sound e r s p :
   rects_apart e r s = true -> ~ (in_open_rect (shrink r e) p /\ in_open_rect (shrink s e) p).
 Proof. exact (rects_apart_sound e r s p). Qed.
 Print Assumptions C13_checker_overlap_sound.
+
+(* ---------------------------------------------------------------------------------------------------------------
+   Loop level (DESIGN 9.17): the solve loop of ColaTopologyAddon::moveTo (hand model Topology/MoveToModel.v: repeat { solve() = VPSC
+   result, safe step with alpha = min maxSafeAlpha, one topology event } while interrupted, at most N times; then read the rectangle
+   centres back), instantiated with the generated maxSafeAlpha.  The VPSC results and the constraint sets after the events come from an
+   arbitrary oracle; premise orc_ok: the constraint set installed by an event holds at the moved positions (what assertFeasible() at the
+   end of TopologyConstraints::solve() checks - the surgery of satisfy() itself is not modelled, as in C13_steps_partial). *)
+From Adapt Require Import Topology.MoveToModel Topology.MoveTo.
+
+(* for EVERY budget N, whether the loop ends because solve() is no longer interrupted or because the budget is exhausted: moveTo returns
+   exactly the rectangle centres of the state reached by k safe steps (1 <= k <= max 1 N), leaves the rectangles there, and every
+   constraint of that state's constraint set is non-violated; interrupted on exit <-> the budget was used up; not interrupted -> every
+   rectangle is at its variable's final position (the last step had alpha = 1) *)
+Theorem C13_moveTo_positions_are_last_safe_state N s orc :
+  inv s -> orc_ok (mt_iters maxSafeAlpha N s orc) 0 s orc ->
+  let k := mt_iters maxSafeAlpha N s orc in
+  let s' := mt_iter maxSafeAlpha k 0 s orc in
+  (1 <= k <= Nat.max 1 N)%nat /\
+  moveTo maxSafeAlpha N s orc = (map n_init (ms_nodes s'), s') /\
+  (forall c, In c (ms_cs s') -> holds (ms_nodes s') c) /\
+  (mt_intr maxSafeAlpha N s orc = true -> k = Nat.max 1 N) /\
+  (mt_intr maxSafeAlpha N s orc = false -> at_final s').
+Proof. exact (moveTo_positions_are_last_safe_state N s orc). Qed.
+Print Assumptions C13_moveTo_positions_are_last_safe_state.
+
+(* every state of the loop is produced from its predecessor by a step that keeps the predecessor's constraints non-violated *)
+Theorem C13_moveTo_every_step_safe k i s orc :
+  inv s -> orc_ok k i s orc ->
+  forall j, (j < k)%nat ->
+  forall c, In c (ms_cs (mt_iter maxSafeAlpha j i s orc)) -> holds (ms_nodes (mt_iter maxSafeAlpha (S j) i s orc)) c.
+Proof. exact (moveTo_every_step_safe k i s orc). Qed.
+Print Assumptions C13_moveTo_every_step_safe.
+
+(* the variant that moves the rectangles on to var->finalPosition after the loop (seeded change C13-6) returns the same coordinates
+   whenever the loop ended un-interrupted: no run that stays within the budget can tell the difference ... *)
+Theorem C13_moveTo_teleport_noop_when_converged N s orc :
+  mt_intr maxSafeAlpha N s orc = false ->
+  Forall2 Qeq (fst (moveTo_teleport maxSafeAlpha N s orc)) (fst (moveTo maxSafeAlpha N s orc)).
+Proof. exact (moveTo_teleport_noop_when_converged N s orc). Qed.
+Print Assumptions C13_moveTo_teleport_noop_when_converged.
+
+(* ... and is REFUTED when the budget runs out: with the budget of the code (100) there is a start state and an admissible oracle for which
+   moveTo's own result satisfies every constraint while the state the variant leaves behind violates one (witness: a mover asked across a
+   bundle of more than 100 coincident edges; vm_compute) - and a second witness in which every iteration really moves the mover (budget 3) *)
+Theorem C13_moveTo_teleport_safe_refuted : exists N s orc, N = 100%nat /\ teleport_violates N s orc.
+Proof. exact moveTo_teleport_safe_refuted. Qed.
+Print Assumptions C13_moveTo_teleport_safe_refuted.
+Theorem C13_moveTo_teleport_safe_refuted_moving : exists N s orc, teleport_violates N s orc.
+Proof. exact moveTo_teleport_safe_refuted_moving. Qed.
+Print Assumptions C13_moveTo_teleport_safe_refuted_moving.
+
+(* non-vacuity: the hypotheses of C13_moveTo_positions_are_last_safe_state hold on a concrete run with the budget exhausted (100 iterations,
+   still interrupted: moveTo returns the mover at x = 1, the teleport variant at x = 200) and on one that ends inside the budget (3
+   iterations, the last with alpha = 1: both return x = 5/2) *)
+Example C13_moveTo_nonvacuous_exhausted :
+  inv wit_s /\ orc_ok (mt_iters maxSafeAlpha 100 wit_s wit_orcA) 0 wit_s wit_orcA /\
+  mt_iters maxSafeAlpha 100 wit_s wit_orcA = 100%nat /\ mt_intr maxSafeAlpha 100 wit_s wit_orcA = true /\
+  Forall2 Qeq (fst (moveTo maxSafeAlpha 100 wit_s wit_orcA)) [0; 0; 1] /\
+  Forall2 Qeq (fst (moveTo_teleport maxSafeAlpha 100 wit_s wit_orcA)) [0; 0; 200].
+Proof. exact moveTo_exhausted_example. Qed.
+Example C13_moveTo_nonvacuous_converged :
+  inv wit_s /\ orc_ok (mt_iters maxSafeAlpha 100 wit_s wit_orcC) 0 wit_s wit_orcC /\
+  mt_iters maxSafeAlpha 100 wit_s wit_orcC = 3%nat /\ mt_intr maxSafeAlpha 100 wit_s wit_orcC = false /\
+  Forall2 Qeq (fst (moveTo maxSafeAlpha 100 wit_s wit_orcC)) [0; 0; 5 # 2] /\
+  Forall2 Qeq (fst (moveTo_teleport maxSafeAlpha 100 wit_s wit_orcC)) [0; 0; 5 # 2].
+Proof. exact moveTo_converged_example. Qed.
